@@ -15,7 +15,8 @@ Families (alphabets):
   files  the file-update part of main with default configurations only (goes one level deeper)
   split  by-value configurations whose item boundaries differ but whose concatenation is equal
          (s1: cert=leaf+intermediate,key=key  s2: cert=leaf,key=intermediate+key;
-          s3: key=key+root2,tc=root  s4: key=key,tc=root2+root), clients def and c2 (other trust domain)
+          s3: key=key+root2,tc=root  s4: key=key,tc=root2+root), s5 = s4 with tc=root only (differs in ONE item),
+         clients def and c2 (other trust domain)
   bad:<file|value>:<kind>:<item>   failure material (missing, empty, garbage, truncated, dangling symlink,
          directory in place of the file, mismatching key) for one item, designated by file attribute,
          by value, or by breaking/fixing the default directory (BRK/FIX), on connect / server / accept
